@@ -493,18 +493,30 @@ class Run:
         items = []
         limit = op.get("limit", 200)
         end = "limit"
-        try:
-            for k, v in it:
-                items.append([k, norm(v)])
-                if len(items) >= limit:
-                    break
-            else:
-                end = "stop"
-        except BaseException as e:  # noqa: BLE001
-            if isinstance(e, HarnessError):
-                raise
-            end = exc_outcome(e)
-        return {"items": items, "end": end}
+        retries = op.get("retry", 0)  # keep using the same iterator after a (timeout) error
+        errors = []
+        while True:
+            try:
+                for k, v in it:
+                    items.append([k, norm(v)])
+                    if len(items) >= limit:
+                        break
+                else:
+                    end = "stop"
+            except BaseException as e:  # noqa: BLE001
+                if isinstance(e, HarnessError):
+                    raise
+                end = exc_outcome(e)
+                if retries > 0 and end["exc"] == "TimeoutError":
+                    retries -= 1
+                    errors.append(len(items))
+                    end = "limit"
+                    continue
+            break
+        out = {"items": items, "end": end}
+        if errors:
+            out["retried_at"] = errors
+        return out
 
     def do_sync(self, i, op):
         kind = op["op"]
@@ -562,18 +574,30 @@ class Run:
         items = []
         limit = op.get("limit", 200)
         end = "limit"
-        try:
-            async for k, v in it:
-                items.append([k, norm(v)])
-                if len(items) >= limit:
-                    break
-            else:
-                end = "stop"
-        except BaseException as e:  # noqa: BLE001
-            if isinstance(e, (HarnessError, asyncio.CancelledError)):
-                raise
-            end = exc_outcome(e)
-        return {"items": items, "end": end}
+        retries = op.get("retry", 0)
+        errors = []
+        while True:
+            try:
+                async for k, v in it:
+                    items.append([k, norm(v)])
+                    if len(items) >= limit:
+                        break
+                else:
+                    end = "stop"
+            except BaseException as e:  # noqa: BLE001
+                if isinstance(e, (HarnessError, asyncio.CancelledError)):
+                    raise
+                end = exc_outcome(e)
+                if retries > 0 and end["exc"] == "TimeoutError":
+                    retries -= 1
+                    errors.append(len(items))
+                    end = "limit"
+                    continue
+            break
+        out = {"items": items, "end": end}
+        if errors:
+            out["retried_at"] = errors
+        return out
 
     async def record_async(self, s, i, op, coro_fn):
         sim = self.sim
